@@ -43,7 +43,7 @@ ListSrc(n, pl, iw) == [op |-> "list", src |-> Range(1, n), pl |-> pl, iw |-> iw]
 DictSrc(n, pl, iw) == [op |-> "dict", ks |-> SubSeq(KeyNames, 1, n),
                        src |-> Range(1, n), pl |-> pl, iw |-> iw]
 DupList == [op |-> "list", src |-> <<1, 1, 2>>, pl |-> "i", iw |-> "pickle"]
-DictPQ  == [op |-> "dict", ks |-> <<"p", "q">>, src |-> <<7, 8>>, pl |-> "i", iw |-> "pickle"]
+DictPQ  == [op |-> "dict", ks |-> <<"pp", "qq">>, src |-> <<7, 8>>, pl |-> "i", iw |-> "pickle"]
 
 Apply(desc, a) == [x \in (DOMAIN desc) \cup {"in"} |-> IF x = "in" THEN a ELSE desc[x]]
 Apply2(desc, a, b) ==
